@@ -362,6 +362,15 @@ func recordDecoded(up bool, pls []lorawan.Payload) []decCmd {
 			continue
 		}
 		dc := decCmd{cid: byte(mc.CID), typeOK: true}
+		// "encoding either returns an error or produces bytes": what a decoder
+		// handed out is a value of the library's own types and goes through the
+		// encoder like any other (a crash is neither an error nor bytes)
+		sim.Guard("r5.decoded-value-crashes-encoder", func() { mc.MarshalBinary() })
+		if pp, ok := mc.Payload.(*lorawan.ProprietaryMACCommandPayload); ok && pp == nil {
+			// (a typed nil pointer in the interface: no payload)
+			out = append(out, dc)
+			continue
+		}
 		if mc.Payload != nil {
 			dc.hasPl = true
 			if pp, ok := mc.Payload.(*lorawan.ProprietaryMACCommandPayload); ok {
